@@ -434,12 +434,12 @@ pub fn run_c14(ctx: &mut RunCtx<'_>) -> Option<Violation> {
     if mode == 2 {
         // T-NEST: a definition nested k levels deep is added to a corpus module (before its last END),
         // optionally followed by one ordinary text fault. Every stage of the pipeline is recursive over
-        // the nesting of a type; the depths stay far below the ~20 000 levels at which the recursive
-        // descent parser is known to exhaust an 8 MiB stack (DESIGN 9).
+        // the nesting of a type. The two deepest classes exhausted the stack of the recursive descent
+        // parser until it got a nesting limit (DESIGN 6.2, D19); 63..65 sit around that limit.
         let mut l = Lane::new(ctx.ch, 1);
         let (name, text) = corpus[l.draw(corpus.len() as u64) as usize];
         let mut text = text.to_string();
-        const DEPTHS: &[usize] = &[2, 5, 17, 60, 200, 600];
+        const DEPTHS: &[usize] = &[2, 5, 17, 60, 63, 64, 65, 200, 600, 5_000, 40_000];
         let k = DEPTHS[l.draw(DEPTHS.len() as u64) as usize];
         let form = l.draw(6);
         let (open, leaf, close): (&str, &str, &str) = match form {
